@@ -110,7 +110,9 @@ Section WithParts.
   (* StreamDeleted(stream, epoch) *)
   Definition stream_deleted (g : group) (s : sid) (e : N) : gres :=
     if (e <? g_epoch g)%N then GRefused else
-    if negb (mem_n s (g_keys g)) then GOk g else
+    (* no member subscribes to it (no heap, or an empty one): nothing changes, the heap entry goes *)
+    if negb (existsb (subscribes s) (g_members g))
+    then GOk (mkGroup (g_members g) (g_owners g) (filter (fun x => negb (N.eqb x s)) (g_keys g)) (g_epoch g)) else
     let subs := filter (subscribes s) (g_members g) in
     let ms := map (fun m => mkMember (m_id m) (filter (fun x => negb (N.eqb x s)) (m_streams m))) (g_members g) in
     let others := sort_n (dedup (concat (map (fun m => filter (fun x => negb (N.eqb x s)) (m_streams m)) subs))) in
